@@ -66,7 +66,7 @@ def extents_spec(seed: int, variant: int, tier: str) -> dict:
 
 
 def all_specs(seed: int, tier: str) -> list[dict]:
-    per = 1 if tier == "quick" else 6
+    per = 1 if tier == "quick" else 3
     specs = []
     for v in range(per):
         for k in range(len(STUB_KINDS)):
